@@ -51,6 +51,11 @@ func IteTime(c bool, a, b time.Time) time.Time                 { panic("nd") }
 func IteU64(c bool, a, b uint64) uint64                        { panic("nd") }
 func NewContext(blockTime time.Time) context.Context           { panic("nd") }
 
+// EventMark is the number of events emitted so far in this execution (all contexts share one list in the
+// symbolic environment); SameEvents compares the events [a0,a1) and [b0,b1) of that list, type and attributes, in order.
+func EventMark() int                      { panic("nd") }
+func SameEvents(a0, a1, b0, b1 int) bool { panic("nd") }
+
 // Z is a ghost (specification-side) unbounded integer.
 type Z struct{ _ int }
 
